@@ -166,6 +166,16 @@ Theorem C08_reference_ranges_are_places : forall text j errs, parse text = Some 
 Proof. exact account_and_commodity_hits_are_places. Qed.
 Print Assumptions C08_reference_ranges_are_places.
 
+(* the payee range of every transaction (hover, definition, references, rename, workspace symbols on a
+   payee) starts where a text token of the stream starts -- a place of the text -- and extends over
+   that token's value on the same line; rng0 when the header has no description *)
+Theorem C08_payee_ranges : forall text j errs, parse text = Some (j, errs) ->
+  forall tx, In tx (j_txs j) ->
+    tx_prng tx = rng0 \/
+    exists t, tok_ok text t /\ tx_prng tx = text_range (tk_pos t) (tk_val t).
+Proof. exact parse_payee_ranges. Qed.
+Print Assumptions C08_payee_ranges.
+
 (* every syntax-error diagnostic is reported at a place of the text *)
 Theorem C08_syntax_errors_in_text : forall text j errs, parse text = Some (j, errs) ->
   forall l c, In (l, c) errs ->
